@@ -410,6 +410,27 @@ def _scripted(args):
     return {"n": n, "vb": vb}
 
 
+def _scripted_snap(args):
+    """Snapshot transparency of the matrix (used by C16): every scripted run with a save -> fresh matrix -> load
+    inserted after each single position; the reference treats the snapshot as the identity."""
+    impl, cfg = args
+    vb = VB()
+    n = 0
+    h = rb.harness() if impl == "rust" else None
+    for run_ in scripted(cfg):
+        variants = [run_[:i] + (("snap",),) + run_[i:] for i in range(1, len(run_))]
+        if impl == "rust":
+            outs = h.batch([rs_req(cfg, v) for v in variants])
+            for v, resp in zip(variants, outs):
+                judge("rust", cfg, v, rs_unpack(resp, v), vb, read_scans=True, cap=8)
+                n += 1
+        else:
+            for v in variants:
+                judge("python", cfg, v, run_py(cfg, v), vb, read_scans=False, cap=8)
+                n += 1
+    return {"n": n, "vb": vb}
+
+
 def _py_keyi(cfg, vb: VB) -> int:
     """KEYI gating through the real machine glue (PCE500Emulator._scan_keyboard_per_instruction)."""
     from pce500.emulator import PCE500Emulator
